@@ -51,6 +51,9 @@ structure Orders where
   diffGuard : List Nat
   sliceGuard : List Nat
   chDiffGuard : List Nat
+  /-- `handleChannel` on first contact persists `localPts` (= pts − ptsCount), the position the new
+  worker starts from (true), or something else (false: the update's own pts) -/
+  creationStoresLocal : Bool
   /-- the marker skip in `internalState.applyPts` / `channelState.applyPts` is `break`, not `continue` -/
   applyPtsBreak : Bool
   chApplyPtsBreak : Bool
@@ -111,6 +114,14 @@ structure World where
   extra : List (Nat × List Nat) := []
   /-- keys (0 common, 2 + c channel) whose next difference request fails with a transient RPC error -/
   failNext : List Nat := []
+  /-- channels whose access hash the client only learns later (action `known`) -/
+  late : List Nat := []
+  known : List Nat := []
+  /-- what the storage holds for channels (tracked or not) when the manager starts -/
+  persisted : List (Nat × Int) := []
+  /-- declared first-contact positions of channels without stored state (derived by the harness
+  from what it sends; verified by the model at creation time) -/
+  cr : List (Nat × Int) := []
   deriving Repr
 
 def World.happened (w : World) : List Entry := w.log.take w.emitted
@@ -126,6 +137,10 @@ def World.serverChan (w : World) (c : Nat) : Int :=
 
 /-- Channels whose access hash nobody knows (harness/c02/mgr `hasher`). -/
 def unknownChan (c : Nat) : Bool := decide (9000 ≤ c)
+
+/-- Does the client lack the channel's access hash (harness/c02/mgr `hasher`)? -/
+def World.hashUnknown (w : World) (c : Nat) : Bool :=
+  unknownChan c || (w.late.contains c && !w.known.contains c)
 
 /-- The extra entries waiting for the next answer of key `k`. -/
 def World.extrasOf (w : World) (k : Nat) : List Entry :=
@@ -186,6 +201,7 @@ def World.chanDiff (w : World) (c : Nat) (pts : Int) : World × ChDiffAns :=
 inductive ChItem where
   | upd (e : Entry)
   | tooLong (pts : Option Int)
+  | subscribe            -- the first thing a new worker does: `getDifference("channel-subscribe")`
   deriving Repr
 
 structure Chan where
@@ -202,6 +218,8 @@ structure Mgr where
   w : World
   trace : List Event := []
   ops : List (Nat × SOp) := []
+  /-- the scenario declared a first-contact position that is not what happened -/
+  bad : Bool := false
   deriving Repr
 
 def Mgr.emit (m : Mgr) (evs : List Event) : Mgr := { m with trace := m.trace ++ evs }
@@ -285,15 +303,42 @@ def sortUpdates (l : List Entry) : List Entry := l.foldr insertSorted []
 def Mgr.pushChan (m : Mgr) (c : Nat) (it : ChItem) : Mgr :=
   { m with chans := m.chans.map fun ch => if ch.id == c then { ch with queue := ch.queue ++ [it] } else ch }
 
+def Mgr.hasChan (m : Mgr) (c : Nat) : Bool := m.chans.any (·.id == c)
+
+/-- `newChannelState` + `s.channels[id] = state` + `wg.Go(state.Run)`. -/
+def Mgr.addChan (m : Mgr) (c : Nat) (pts : Int) : Mgr :=
+  { m with chans := m.chans ++ [{ id := c, box := { state := pts } }] }
+
+/-- `internalState.handleChannel` for a channel that is not tracked yet. -/
+def Mgr.firstContact (O : Orders) (m : Mgr) (e : Entry) : Mgr :=
+  let c := e.chan
+  if m.w.hashUnknown c then
+    -- no access hash: `restoreAccessHash` costs one getDifference and the update is dropped
+    m.emit [.apiRestore m.pts.state m.qts.state]
+  else
+    match m.w.persisted.find? (·.1 == c) with
+    | some sp =>
+      -- the storage knows the channel: the worker starts from the stored pts, nothing is written
+      ((m.addChan c sp.2).pushChan c .subscribe).pushChan c (.upd e)
+    | none =>
+      match m.w.cr.find? (·.1 == c) with
+      | none => { m with bad := true }
+      | some d =>
+        if d.2 = e.pos - e.count then
+          -- localPts = pts − ptsCount; the initial SetChannelPts; a worker starting there
+          let m := m.addChan c d.2
+          let m := m.seqOp O (2 + c) (.seq storeOnlyShape (if O.creationStoresLocal then d.2 else e.pos) [])
+          (m.pushChan c .subscribe).pushChan c (.upd e)
+        else { m with bad := true }
+
 /-- Routing of one update of a container (`applyCombined`'s loop body). -/
 def Mgr.route (O : Orders) (m : Mgr) (e : Entry) : Mgr :=
   match e.kind with
   | .msg | .other => m.seqOp O 0 (.push e)
   | .qts | .qother => m.seqOp O 1 (.push e)
   | .chmsg | .chother =>
-    -- `handleChannel`: an untracked channel whose access hash is unknown costs one getDifference
-    -- (`restoreAccessHash`) and the update is dropped
-    if unknownChan e.chan then m.emit [.apiRestore m.pts.state m.qts.state] else m.pushChan e.chan (.upd e)
+    -- `handleChannel`
+    if m.hasChan e.chan then m.pushChan e.chan (.upd e) else m.firstContact O e
   | .plain | .aff | .chaff => m
 
 /-- `internalState.applyCombined` for a container without seq/date. -/
@@ -395,6 +440,7 @@ def Mgr.chGetDifference (O : Orders) (c : Nat) : Nat → Mgr → Mgr
 /-- One item of a channel worker's queue (`channelState.handleUpdate` / `handleAffected` /
 `handleTooLong`). -/
 def Mgr.chanItem (O : Orders) (fuel : Nat) (c : Nat) (m : Mgr) : ChItem → Mgr
+  | .subscribe => m.chGetDifference O c fuel
   | .upd e => m.seqOp O (2 + c) (.push e)
   | .tooLong none => m.chGetDifference O c fuel
   | .tooLong (some p) =>
@@ -441,6 +487,7 @@ inductive Action where
   | chTlNext (c : Nat)
   | extra (k : Nat) (ids : List Nat)   -- the next answer for key `k` (0 common, 2 + c channel) carries these too
   | failNext (k : Nat)                 -- the next difference request for key `k` fails (transient RPC error)
+  | known (c : Nat)                    -- the client learns the access hash of channel `c`
   deriving Repr
 
 def fuel0 : Nat := 64
@@ -485,12 +532,15 @@ def Mgr.act (O : Orders) (m : Mgr) : Action → Mgr
   | .chTlNext c => { m with w := { m.w with chTooLong := c :: m.w.chTooLong } }
   | .extra k ids => { m with w := { m.w with extra := (k, ids) :: m.w.extra.filter (·.1 != k) } }
   | .failNext k => { m with w := { m.w with failNext := k :: m.w.failNext } }
+  | .known c => { m with w := { m.w with known := c :: m.w.known } }
 
 /-- `Manager.Run` from a persisted state: startup differences, then the actions, each followed
 by quiescence. -/
 def Mgr.start (O : Orders) (w : World) (pts qts : Int) (chans : List (Nat × Int)) : Mgr :=
+  -- `loadChannels`: stored channels whose access hash is unknown are skipped
   let m : Mgr := { pts := { state := pts }, qts := { state := qts },
-                   chans := chans.map fun c => { id := c.1, box := { state := c.2 } }, w := w }
+                   chans := (chans.filter fun c => !w.hashUnknown c.1).map fun c => { id := c.1, box := { state := c.2 } },
+                   w := w }
   let m := m.getDifference O fuel0
   let m := (m.chans.map (·.id)).foldl (fun (m : Mgr) c => m.chGetDifference O c fuel0) m
   m.settle O fuel0
